@@ -540,6 +540,16 @@ class CodeGenerator(NodeVisitor):
             for k in chain((x.key for x in node.kwargs), extra_kwargs or ())
         )
 
+        # A keyword the compiler passes itself can't be given as well,
+        # python would reject the generated call.
+        for kwarg in node.kwargs:
+            if extra_kwargs is not None and kwarg.key in extra_kwargs:
+                self.fail(
+                    f"keyword argument {kwarg.key!r} is passed by the"
+                    " template engine and can't be given here",
+                    kwarg.lineno,
+                )
+
         for arg in node.args:
             self.write(", ")
             self.visit(arg, frame)
